@@ -41,9 +41,14 @@ def term_of(b, relpath, name, args, pre, genv, inline=None):
         return fn, None
     ret = [p for p in paths if p.outcome == "return"]
     no_raise(b, fn, paths, pre)
-    if len(ret) != 1:
-        b.subset_exits.append(f"{fn.key}: expected a single returning path, got {len(ret)}")
+    if not ret:
+        b.subset_exits.append(f"{fn.key}: no returning path")
         return fn, None
+    if len(ret) > 1:
+        # several returning paths: the clauses are stated on each; pairs / twins use the first path and every other path must return the same term
+        for i, p in enumerate(ret[1:], 1):
+            b.add(Obligation(oid=f"{fn.key}::ensures:paths_agree@path{i}", fn=fn.key, clause="every returning path computes the same closed form (the contract of this function is branch-free)",
+                             goal=sp.Eq(sp.sympify(p.value), sp.sympify(ret[0].value)), hyps=list(pre) + p.hyps))
     return fn, ret[0]
 
 
@@ -119,6 +124,8 @@ def build(tier="quick", seed=0):
                                      clause="returns only when host_mass > 0 and target_mass >= 0", goal=ok_masses, hyps=[sp.Gt(x, 0), sp.Gt(G, 0)] + p.hyps))
     constants(b)
     orbit_invariant(b)
+    b.replayer(f"{FO}::OrbitBase.*", _replay_orbit)
+    b.replayer(f"{FP}::*", _replay_kepler_fn)
     b.assume("cbrt/sqrt enter through the axioms cbrt(x)^3 = x, sqrt(x)^2 = x, sqrt(x) >= 0, positivity; 'to rounding' in the statement is not quantified (doubles as reals)")
     b.assume("np.pi and libc M_PI denote the same real number pi_")
     return b
@@ -173,15 +180,17 @@ def _replay_twin(ob, res):
 
 # ---------------------------------------------------------------------------------------------
 def orbit_invariant(b):
-    """Kepler(i) after every public setter, for a 3-body orbit (host 0, worlds 1, 2); target world = 1."""
+    """Kepler(slot) after every public setter, on a star + host + 2 moons orbit, for every way of addressing a world (index, world instance,
+    host instance = the host's orbit about its tide raiser) and for stellar-orbit updates; all other slots framed.  world_signature_to_index is
+    executed from the real source."""
     cls = ClassModel("OrbitBase", FO)
-    masses = [R("M_host"), R("m_1"), R("m_2")]
-    pre = [sp.Gt(masses[0], 0), sp.Gt(masses[1], 0), sp.Gt(masses[2], 0), sp.Gt(G, 0)]
+    Ms, Mh, m1, m2 = R("M_star"), R("M_host"), R("m_1"), R("m_2")
+    pre = [sp.Gt(x_, 0) for x_ in (Ms, Mh, m1, m2, G)]
     val = R("new_value")
     pre_v = pre + [sp.Gt(val, 0)]
 
     def rads2days_c():
-        return Contract("rads2days", lambda w: [("frequency != 0", sp.Ne(w, 0))], lambda res, w: [sp.Eq(res * 86400 * w, 2 * T.PI)])
+        return Contract("rads2days", lambda w_: [("frequency != 0", sp.Ne(w_, 0))], lambda res, w_: [sp.Eq(res * 86400 * w_, 2 * T.PI)])
 
     def days2rads_c():
         return Contract("days2rads", lambda d: [("days != 0", sp.Ne(d, 0))], lambda res, d: [sp.Eq(res * 86400 * d, 2 * T.PI), sp.Gt(res * d, 0)])
@@ -194,43 +203,42 @@ def orbit_invariant(b):
             return [sp.Eq(res ** 2 * a ** 3, G * (hm + tm)), sp.Gt(res, 0)]
         return Contract("semi_a2orbital_motion", req, ens, result=lambda *x_: fresh("n"))
 
-    def motion_c():
-        c = orbital_motion2semi_a_contract()
-        return c
-
-    def idx_c():
-        # assumed contract: an int signature in 1..N-1 is its own index (body of world_signature_to_index, int branch)
-        return Contract(".world_signature_to_index", None, None, result=lambda self, sig, return_tidal_host=False: sig)
-
     def noop_c(name):
         return Contract(name, None, None, result=lambda *a, **k: None)
-
     contracts = {"rads2days": rads2days_c(), "days2rads": days2rads_c(), "semi_a2orbital_motion": semia_c(),
-                 "orbital_motion2semi_a": motion_c(), ".world_signature_to_index": idx_c(), ".orbit_changed": noop_c(".orbit_changed")}
+                 "orbital_motion2semi_a": orbital_motion2semi_a_contract(), ".orbit_changed": noop_c(".orbit_changed")}
+    genv = dict(all_world_types="WORLD_TYPES", BadWorldSignature="BadWorldSignature", BadWorldSignatureType="BadWorldSignatureType", TidalPyOrbitError="TidalPyOrbitError")
 
     def mk_orbit(sync):
+        masses = [Mh, m1, m2]
         worlds = [Obj(None, mass=masses[i], force_spin_sync=sync, name=f"w{i}", set_spin_frequency=(lambda ex, node, *a, **k: None),
                       orbit_spin_changed=(lambda ex, node, *a, **k: None)) for i in range(3)]
-        old = dict(a=[R(f"a{i}_old") for i in range(3)], n=[R(f"n{i}_old") for i in range(3)], P=[R(f"P{i}_old") for i in range(3)],
-                   e=[R(f"e{i}_old") for i in range(3)])
+        star = Obj(None, mass=Ms, name="star")
+        old = dict(a=[R(f"a{i}_old") for i in range(3)], n=[R(f"n{i}_old") for i in range(3)], P=[R(f"P{i}_old") for i in range(3)])
         o = Obj(cls, _semi_major_axes=list(old["a"]), _orbital_frequencies=list(old["n"]), _orbital_periods=list(old["P"]),
-                _eccentricities=list(old["e"]), _tidal_objects=worlds, _tidal_host=worlds[0], _star=None, _host_tide_raiser=worlds[1],
-                _star_host=False)
-        return o, old, worlds
+                _eccentricities=[R(f"e{i}") for i in range(3)], _tidal_objects=worlds, _tidal_host=worlds[0], _star=star, _host_tide_raiser=worlds[2],
+                _star_host=False, _all_tidal_world_orbit_index_by_instance={worlds[1]: sp.Integer(1), worlds[2]: sp.Integer(2)},
+                _all_tidal_world_orbit_index_by_name={"w1": sp.Integer(1), "w2": sp.Integer(2)})
+        return o, old, worlds, star
 
-    def check(label, method, args, kwargs, changed_e=False):
+    def check(label, method, argname, via_state, addressing, stellar):
         for sync in (False, True):
-            o, old, worlds = mk_orbit(sync)
+            o, old, worlds, star = mk_orbit(sync)
+            sig = {"index": sp.Integer(1), "instance": worlds[1], "host": worlds[0], "name": "w1"}[addressing]
+            slot = 0 if stellar else {"index": 1, "instance": 1, "host": 2, "name": 1}[addressing]
+            Mprimary = Ms if stellar else Mh
+            Msecondary = [Mh, m1, m2][slot]
             c, node = cls.lookup("methods", method)
             if node is None:
                 b.subset_exits.append(f"{FO}::OrbitBase.{method}: method not found")
                 return
             mfn = MethodFn(c, node)
             b.functions[mfn.key] = mfn.info()
-            ex = Exec(mfn, pre=pre_v, contracts=contracts, opts=dict(max_recursion=2))
-            env = dict(self=o)
-            env.update(args)
-            env.update(kwargs)
+            ex = Exec(mfn, pre=pre_v, contracts=contracts, globals_env=genv, opts=dict(max_recursion=3))
+            env = dict(self=o, world_signature=sig)
+            env[argname] = val
+            if stellar:
+                env["set_stellar_orbit"] = True
             try:
                 paths = ex.run(env)
             except SymExError as e:
@@ -239,40 +247,119 @@ def orbit_invariant(b):
             b.absorb_exec(ex)
             for f in ex.called:
                 b.functions.setdefault(f, dict(function=f, note="executed inline from the real class source"))
-            for i, p in enumerate(paths):
-                tag = f"{mfn.key}::{label}:sync={int(sync)}" + (f"@path{i}" if len(paths) > 1 else "")
-                if p.outcome != "return":
-                    b.add(Obligation(oid=tag + "::noraise", fn=mfn.key, clause="public setter does not raise for a valid single quantity",
-                                     goal=sp.false, hyps=pre_v + p.hyps, meta=dict(raised=repr(p.value))))
-                    continue
-                A, N, P = o._attrs["_semi_major_axes"], o._attrs["_orbital_frequencies"], o._attrs["_orbital_periods"]
-                kep = sp.And(sp.Eq(N[1] ** 2 * A[1] ** 3, G * (masses[0] + masses[1])), sp.Eq(P[1] * 86400 * N[1], 2 * T.PI))
-                b.add(Obligation(oid=tag + "::kepler", fn=mfn.key,
-                                 clause="ensures n_i^2 a_i^3 == G(M+m_i) and P_i == 2 pi/(86400 n_i) for the updated world", goal=kep,
-                                 hyps=pre_v + p.hyps, meta=dict(a=str(A[1]), n=str(N[1]), P=str(P[1]))))
-                frame = sp.And(*[sp.Eq(X[j], old[k][j]) for X, k in ((A, "a"), (N, "n"), (P, "P")) for j in (0, 2)])
-                b.add(Obligation(oid=tag + "::frame", fn=mfn.key, clause="frame: entries of the other worlds unchanged", goal=frame, hyps=pre_v + p.hyps))
-            # path objects share `o`: re-running paths mutates the same object, so only single-path methods are supported
-            if len(paths) > 1:
+            tag = f"{mfn.key}::{label}:sync={int(sync)}"
+            if len(paths) != 1:
                 b.subset_exits.append(f"{mfn.key} ({label}): {len(paths)} paths over one shared object store")
+                continue
+            p = paths[0]
+            if p.outcome != "return":
+                b.add(Obligation(oid=tag + "::noraise", fn=mfn.key, clause="public setter does not raise for a valid single quantity", goal=sp.false, hyps=pre_v + p.hyps, meta=dict(raised=repr(p.value))))
+                continue
+            A, N, P = o._attrs["_semi_major_axes"], o._attrs["_orbital_frequencies"], o._attrs["_orbital_periods"]
+            kep = sp.And(sp.Eq(N[slot] ** 2 * A[slot] ** 3, G * (Mprimary + Msecondary)), sp.Eq(P[slot] * 86400 * N[slot], 2 * T.PI))
+            b.add(Obligation(oid=tag + "::kepler", fn=mfn.key,
+                             clause="ensures n^2 a^3 == G(M_primary + m) and P == 2 pi/(86400 n) in the slot the signature addresses, with the masses of that pair", goal=kep,
+                             hyps=pre_v + p.hyps, meta=dict(a=str(A[slot]), n=str(N[slot]), P=str(P[slot]), slot=slot)))
+            frame = sp.And(*[sp.Eq(X[j], old[k][j]) for X, k in ((A, "a"), (N, "n"), (P, "P")) for j in range(3) if j != slot])
+            b.add(Obligation(oid=tag + "::frame", fn=mfn.key, clause="frame: a, n, P of every other slot unchanged", goal=frame, hyps=pre_v + p.hyps))
 
-    one = sp.Integer(1)
-    check("set_semi_major_axis", "set_semi_major_axis", dict(world_signature=one, semi_major_axis=val), {})
-    check("set_orbital_frequency", "set_orbital_frequency", dict(world_signature=one, orbital_frequency=val), {})
-    check("set_orbital_period", "set_orbital_period", dict(world_signature=one, orbital_period=val), {})
-    check("set_state:a", "set_state", dict(world_signature=one), dict(semi_major_axis=val))
-    check("set_state:n", "set_state", dict(world_signature=one), dict(orbital_frequency=val))
-    check("set_state:P", "set_state", dict(world_signature=one), dict(orbital_period=val))
+    setters = [("set_semi_major_axis", "semi_major_axis"), ("set_orbital_frequency", "orbital_frequency"), ("set_orbital_period", "orbital_period")]
+    for addressing in ("index", "instance", "host", "name"):
+        for meth, arg in setters:
+            check(f"{meth}[{addressing}]", meth, arg, False, addressing, False)
+            check(f"set_state:{arg}[{addressing}]", "set_state", arg, True, addressing, False)
+    for meth, arg in setters:
+        check(f"{meth}[host;stellar]", meth, arg, False, "host", True)
+        check(f"set_state:{arg}[host;stellar]", "set_state", arg, True, "host", True)
     # frame assumption on orbit_changed: it must not store into the orbital arrays
     for cname, rel in (("OrbitBase", FO), ("PhysicsOrbit", "TidalPy/structures/orbit/physics.py")):
         cm = ClassModel(cname, rel)
         node = cm.methods.get("orbit_changed")
         if node is None:
             continue
-        writes = [ast.unparse(t) for s in ast.walk(node) if isinstance(s, (ast.Assign, ast.AugAssign)) for t in (s.targets if isinstance(s, ast.Assign) else [s.target])
+        writes = [ast.unparse(t) for s_ in ast.walk(node) if isinstance(s_, (ast.Assign, ast.AugAssign)) for t in (s_.targets if isinstance(s_, ast.Assign) else [s_.target])
                   if any(k in ast.unparse(t) for k in ("_semi_major_axes", "_orbital_frequencies", "_orbital_periods", "semi_major_axes", "orbital_frequencies", "orbital_periods"))]
         ground(b, f"{rel}::{cname}.orbit_changed::frame", f"{rel}::{cname}.orbit_changed",
                "orbit_changed does not store into the a / n / P arrays (frame used by the setter contracts)", not writes, detail=str(writes))
-    b.assume("world_signature_to_index: an int signature 1..N-1 is its own index (int branch of the real method; not executed)")
     b.assume("world.set_spin_frequency / orbit_spin_changed do not write the orbit's a / n / P arrays (other classes; not executed here)")
-    b.assume("orbit invariant is proved for the world whose setter is called; the statement's 'all sequences of updates' follows by induction since each setter re-establishes the invariant for its world and frames the others")
+    b.assume("orbit invariant is proved per setter and per way of addressing a world (index, name, instance, host instance, stellar orbit); the statement's 'all sequences of updates' follows by induction since each setter re-establishes the invariant for its slot and frames the others")
+
+
+_ORBIT_REPLAY = r'''
+import numpy as np, math
+from TidalPy.structures import build_world
+from TidalPy.structures.orbit import PhysicsOrbit
+cfg = args
+G = 6.6743e-11
+star = build_world("55cnc"); host = build_world("earth_simple"); m1 = build_world("io_simple"); m2 = build_world("europa_simple") if False else build_world("io_simple")
+m2 = __import__("copy").deepcopy(m1)
+try:
+    m2.name = "io2"
+except Exception:
+    pass
+orbit = PhysicsOrbit(star, tidal_host=host, tidal_bodies=[m1, m2], host_tide_raiser=m2)
+for w, P in ((m1, 1.77), (m2, 3.55)):
+    orbit.set_state(w, orbital_period=P, eccentricity=0.01)
+try:
+    orbit.set_orbital_period(host, 365.0, set_stellar_orbit=True)
+except Exception as ex:
+    pass
+def snap():
+    return [[float(np.asarray(x[i]).ravel()[0]) if x[i] is not None else None for i in range(len(orbit.tidal_objects))]
+            for x in (orbit.semi_major_axes, orbit.orbital_frequencies, orbit.orbital_periods)]
+before = snap()
+sig = {"index": 1, "instance": m1, "host": host, "name": m1.name}[cfg["addressing"]]
+kw = {"set_stellar_orbit": True} if cfg["stellar"] else {}
+val = cfg["value"]
+if cfg["method"] == "set_state":
+    orbit.set_state(sig, **{cfg["arg"]: val}, **kw)
+else:
+    getattr(orbit, cfg["method"])(sig, val, **kw)
+after = snap()
+objs = orbit.tidal_objects
+slot = 0 if cfg["stellar"] else (objs.index(m2) if cfg["addressing"] == "host" else objs.index(m1))
+Mp = star.mass if cfg["stellar"] else host.mass
+a, n, P = after[0][slot], after[1][slot], after[2][slot]
+kepler_rel = abs(n * n * a ** 3 - G * (Mp + objs[slot].mass)) / (G * (Mp + objs[slot].mass))
+period_rel = abs(P * 86400 * n - 2 * math.pi) / (2 * math.pi)
+frame_bad = [(k, j) for k in range(3) for j in range(len(objs)) if j != slot and before[k][j] != after[k][j]]
+result = {"slot": slot, "kepler_rel": kepler_rel, "period_rel": period_rel, "frame_changes": frame_bad}
+'''
+
+
+def _replay_orbit(ob, res):
+    import re
+    from tpv import native
+    m = re.search(r"::(set_\w+?)(?::(\w+))?\[(\w+)(;stellar)?\]:sync=", ob.oid)
+    if not m:
+        return dict(replayed=False, reason="cannot parse the scenario from the obligation id")
+    meth, arg, addressing, stellar = m.group(1), m.group(2), m.group(3), bool(m.group(4))
+    if meth != "set_state":
+        arg = {"set_semi_major_axis": "semi_major_axis", "set_orbital_frequency": "orbital_frequency", "set_orbital_period": "orbital_period"}[meth]
+    value = {"semi_major_axis": 6.0e8, "orbital_frequency": 2.9e-5, "orbital_period": 2.6}[arg] if not stellar else {"semi_major_axis": 2.0e11, "orbital_frequency": 1.5e-7, "orbital_period": 500.0}[arg]
+    out = native.run(dict(code=_ORBIT_REPLAY, args=dict(method=meth, arg=arg, addressing=addressing, stellar=stellar, value=value)), timeout=600)
+    rec = dict(replayed=True, scenario=dict(method=meth, arg=arg, addressing=addressing, stellar=stellar, value=value), native=out)
+    try:
+        v = out["result"]
+        rec["confirmed"] = bool(v["kepler_rel"] > 1e-9 or v["period_rel"] > 1e-9 or v["frame_changes"])
+    except Exception:
+        rec["confirmed"] = "exception" in out
+    return rec
+
+
+def _replay_kepler_fn(ob, res):
+    from tpv import native
+    code = r'''
+import numpy as np
+from TidalPy.utilities.conversions.conversions import orbital_motion2semi_a, semi_a2orbital_motion
+G = 6.6743e-11
+bad = []
+for M, m in ((5.97e24, 7.3e22), (7.3e22, 5.97e24), (1.0, 0.0), (2e30, 1.9e27)):
+    for n in (1e-9, 4.1e-5, 3.0):
+        a = orbital_motion2semi_a(n, M, m)
+        n2 = semi_a2orbital_motion(a, M, m)
+        if abs(n2 - n) > 1e-9 * n or abs(n * n * a ** 3 - G * (M + m)) > 1e-9 * G * (M + m): bad.append([M, m, n, float(a), float(n2)])
+result = bad[:4]
+'''
+    out = native.run(dict(code=code), timeout=300)
+    return dict(replayed=True, native=out, confirmed=bool(out.get("result")) or "exception" in out)
